@@ -32,6 +32,22 @@ CHECKS = {
         "level_note": "crypto/tls refuses some syntactically valid hellos (counted as tls_oracle_refused); those only get the harness-decoder oracle.",
         "assumptions": ["hellos with duplicate extension types, several SNI names or trailing bytes are not generated (RFC-invalid)"],
     },
+    "C06": {
+        "stages": [rapid_stage("C06", 1500, 10000)],
+        "design_ref": "DESIGN.md 4 C06",
+        "technique": "model-based (stateful) property testing with rapid: generated client/backend record histories vs. a reference state machine written from the property",
+        "level_text": "Randomised histories (up to 14 operations + drain) of client sends, backend queue/flush (with split writes) and backend reads; the reference machine predicts for every record read whether it is a retry (and its outcome) or forwarded unchanged.",
+        "level_note": "Histories with two HelloRetryRequests, an HRR after a ServerHello or after backend application data are excluded (undefined by TLS).",
+        "assumptions": ["crypto/hpke sender sequence numbers as reference for 'next sequence number'"],
+    },
+    "C07": {
+        "stages": [rapid_stage("C07", 500, 6000, qshards=4)],
+        "design_ref": "DESIGN.md 4 C07",
+        "technique": "property-based testing (rapid): generated chunk/split/cut schedules on a scripted transport, prefix/lossless invariants over the I/O history",
+        "level_text": "Randomised exploration of fragmentation schedules, buffer sizes, write splits, record lengths (boundaries weighted) and transport cuts; invariants checked after every operation.",
+        "level_note": "Single goroutine drives both directions, so the operation order is the history; cut offsets are sampled, not enumerated, in the quick tier.",
+        "assumptions": ["zero-length records are generated only for application data (RFC 8446 5.1 forbids them for other types)"],
+    },
     "C09": {
         "stages": [rapid_stage("C09", 800, 10000)],
         "design_ref": "DESIGN.md 4 C09",
